@@ -555,7 +555,7 @@ def h_c13(tier, seed, hints):
               "count <= files present; metafiles by torrentfile's creators (v1, v2, hybrid) and by the reference encoder; "
               "distinct = whole case description",
               "quick: pl 16 KiB, ~100 file lists of length <= 3 from the boundary size alphabet x 3 versions, 1 variant each; thorough: pl 16/32/64 KiB, "
-              "all lists of length <= 2 in all nesting shapes, all (16 KiB) / every 9th (32, 64 KiB) list of length 3, 3 variants each")
+              "all lists of length <= 2 in all nesting shapes, all (16 KiB) / every 9th (32, 64 KiB) list of length 3, 3 (16 KiB) / 1 (32, 64 KiB) variants each")
     _MEMO.clear()
     cases = _c13_cases(tier, seed) + [dict(c, prop="C13") for c in hints.get("cases", []) if c.get("prop", "C13") == "C13"]
     seen = set()
